@@ -30,6 +30,7 @@ func init() {
 		Run:       c10Run,
 		Replay:    c10Replay,
 		NeedRepro: true,
+		DeadlineT: 45 * time.Minute,
 	})
 }
 
